@@ -114,3 +114,26 @@ func TestTiming(t *testing.T) {
 		fmt.Printf("case %d %v pages=%d mode=%s htmllen=%d\n", r.i, r.d, r.pages, r.mode, r.words)
 	}
 }
+
+// C02_FIND=<counter> lists the cases of seed C02_SEED (default 1) in [C02_FROM, C02_TO) whose result has the counter.
+func TestFind(t *testing.T) {
+	name := os.Getenv("C02_FIND")
+	if name == "" {
+		t.Skip()
+	}
+	seed, from, to := int64(1), 0, 2000
+	fmt.Sscan(os.Getenv("C02_SEED"), &seed)
+	fmt.Sscan(os.Getenv("C02_FROM"), &from)
+	fmt.Sscan(os.Getenv("C02_TO"), &to)
+	n := 0
+	for i := from; i < to && n < 5; i++ {
+		in := Generate(fw.CaseRNG(seed, "C02", i), i, "quick")
+		raw, _ := json.Marshal(in)
+		res := Check(raw)
+		if res.Counters[name] > 0 {
+			n++
+			fmt.Printf("case %d %s=%d verdict=%s mode=%s\n", i, name, res.Counters[name], res.Verdict, in.Mode)
+			os.WriteFile(fmt.Sprintf("/tmp/c02find%d.json", n), raw, 0o644)
+		}
+	}
+}
